@@ -390,6 +390,12 @@ def run(chk):
     chk.floor("C16-D10.init", nini, 150, "scalar members x constructors")
     nro = c16more.readonly_rule(chk, db, "C16-D11.readonly")
     chk.floor("C16-D11.readonly", nro, 20, "dispatched commands")
+    nx = c16more.xfile_rule(chk, db, "C16-D13.xfile")
+    chk.floor("C16-D13.xfile", nx, 5, "commands that read the points file")
+    nl = c16more.limits_rule(chk, db, "C16-D14.limits")
+    chk.floor("C16-D14.limits", nl, 8, "library calls with a level-limits parameter")
+    nrj = c16more.rejected_rule(chk, db, "C16-D15.rejected")
+    chk.floor("C16-D15.rejected", nrj, 3, "uses of rejected option data")
     nlay = c16more.coeff_layout_rule(chk, db, "C16-D12.coefflayout")
     chk.floor("C16-D12.coefflayout", nlay, 2, "copy statements of the writer of Fourier coefficients")
 
